@@ -40,7 +40,7 @@ EPS = np.finfo(float).eps
 def strategy_(draw, tier):
     big = tier == "thorough"
     n = draw(st.integers(6, 40 if big else 19))
-    m = draw(st.integers(2, 24 if big else 11))
+    m = draw(st.integers(1, 24 if big else 11))
     spread = draw(st.sampled_from([0.0, 1.0, 2.0]))
     X = gen.normal(draw, (n, m)) * np.exp(gen.normal(draw, (m,)) * spread)
     kind = draw(st.sampled_from(["full", "full", "dupcol", "lowrank"]))
